@@ -225,7 +225,7 @@ claim("C14",
       "Theorems (Coq, unbounded over histories): in the model of the encoder's process shell (Model/Ctx.v: the colour context "
       "is set for every path, the encoder runs, the context is always cleared) the result of encoding t after ANY history of "
       "constructions and successful or failing encodes, from any starting context, is enc (Some (pal t)) t - its fresh-process "
-      "result; two consecutive encodes agree; no history leaves a context behind; the shell before the repairs is refuted by a "
+      "result - and so is every output of the history (C14_every_output: the whole output list characterised); two consecutive encodes agree; no history leaves a context behind; the shell before the repairs is refuted by a "
       "witness. The encoder inside the shell is the Gallina function Document.encode (pure by construction, tied to the code by "
       "strict token correspondence on the pool). Against the implementation: every history (exhaustive length 1, and 2 in the "
       "thorough tier; sampled 2-4; failing-encode-then-X) is run in a FRESH interpreter, with and without shared component "
